@@ -50,7 +50,10 @@ type BtcWallet struct {
 	// SameScriptExtra, if set, returns the value of an additional output paying the swap address (a wallet
 	// batching a second send to the same address) and whether it goes before the swap output; 0 = none.
 	SameScriptExtra func(amount uint64) (value int64, before bool)
-	Opened          []string // txids of funding transactions
+	// NestedInputs (real CLN adapter only) decides whether the next funding transaction spends P2SH-wrapped segwit
+	// coins, whose signing changes the txid.
+	NestedInputs func() bool
+	Opened       []string // txids of funding transactions
 }
 
 func newBtcWallet(n *Node) *BtcWallet {
